@@ -32,8 +32,8 @@ func (C03) Generate(r *core.Rand, tier string, idx int) *core.Scenario {
 	sc.Cfg["nbox"] = r.Range(2, 3)
 	sc.Cfg["labels"] = r.Intn(2)
 	sc.Cfg["nopar"] = r.Intn(2)
-	if r.P(1, 8) {
-		sc.Cfg["appdel"] = 1 // allow APPEND with \Deleted in its flag list
+	if r.P(1, 2) {
+		sc.Cfg["appdel"] = 1 // allow APPEND with \Deleted in its flag list (finding F02, repaired)
 	}
 	// input classes whose defects (F03, F04) were repaired: sets naming a message twice and
 	// sets written in descending order, each in half of the runs
